@@ -304,6 +304,7 @@ def _unary(case):
             acc("t", lambda o: o.t)
         if cn in ("SO3", "SE3"):
             acc("eul", lambda o: o.eul(), layouts=True)
+            acc("eul/deg", lambda o: o.eul(unit="deg"), layouts=True)
             acc("rpy", lambda o: o.rpy(), layouts=True)
             acc("rpy/xyz/deg", lambda o: o.rpy(unit="deg", order="xyz"), layouts=True)
         else:
@@ -342,7 +343,9 @@ def _unary(case):
             objm("inv", lambda o: o.inv())
             acc("R", lambda o: o.R)
             acc("rpy", lambda o: o.rpy(), layouts=True)
+            acc("rpy/deg/yxz", lambda o: o.rpy(unit="deg", order="yxz"), layouts=True)
             acc("eul", lambda o: o.eul(), layouts=True)
+            acc("eul/deg", lambda o: o.eul(unit="deg"), layouts=True)
             objm("SO3", lambda o: o.SO3()) if False else None
     else:
         objm("inv", lambda o: o.inv())
